@@ -1,6 +1,7 @@
 """Child S: executes one concrete plan against the real algopy and returns the
 event log.  Nothing here draws random numbers except the dense reverse seeds,
 which are a pure function of (subseed, shape)."""
+import contextlib
 import os
 import random
 import signal
@@ -259,6 +260,7 @@ class Sim(object):
         self.clients = [Client(i, c) for i, c in enumerate(run['clients'])]
         self.events = []
         self.retained = []        # results handed out by completed calls: (seq, client, arrays, bytes)
+        self.views = {}           # id(caller-owned object) -> (object, values as the caller last wrote them)
         self.line = LineFault(os.path.join(env.REPO, 'algopy') + os.sep)
         if any(s.get('fault') and s['fault']['kind'].startswith('node') for s in run['plan']):
             install_fault_seam(self.al)
@@ -430,6 +432,18 @@ class Sim(object):
         ev['ids'] = [getattr(f, 'ID', None) for f in c.cg.functionList]
         ev['count'] = c.cg.functionCount
 
+    def caller_view(self, obj):
+        """The values the caller put into `obj` (at creation or at its last in-place overwrite).
+        If the library has modified the object since, that is not the caller's doing: the call's
+        argument, as far as the caller can know, still has these values."""
+        v = self.views.get(id(obj))
+        if v is not None and v[0] is obj:
+            return v[1]
+        return enc(obj)
+
+    def caller_wrote(self, obj):
+        self.views[id(obj)] = (obj, enc(obj))
+
     def build_inputs(self, c, step):
         xs = []
         for spec in step['inputs']:
@@ -451,8 +465,10 @@ class Sim(object):
                     obj[...] = a
                 else:
                     obj.data[...] = a
+                self.caller_wrote(obj)
             else:
-                obj = make_value(self.al, spec['kind'], spec['val'])
+                obj = make_value(self.al, spec['kind'], spec['val'], spec.get('dtype'))
+                self.caller_wrote(obj)
             c.slots[sid] = obj
             xs.append(obj)
         return xs
@@ -469,7 +485,7 @@ class Sim(object):
 
     def call_fwd(self, c, step):
         xs = self.build_inputs(c, step)
-        args = [enc(x) for x in xs]
+        args = [self.caller_view(x) for x in xs]
 
         def thunk():
             c.last_out = None
@@ -482,18 +498,152 @@ class Sim(object):
             return enc(out), out
         return args, thunk, xs
 
-    def call_rev(self, c, step):
+    def make_seeds(self, c, subseed, bad=False):
         ybars = []
         for f in c.cg.dependentFunctionList:
             x = f.x
             if isinstance(x, self.al.UTPM):
                 shp = x.data.shape
-                if step.get('bad'):
+                if bad:
                     shp = shp + (2,)
-                ybars.append(self.al.UTPM(dense_seed(step['subseed'] + len(ybars), shp)))
+                ybars.append(self.al.UTPM(dense_seed(subseed + len(ybars), shp)))
             else:
-                ybars.append(dense_seed(step['subseed'] + len(ybars), numpy.shape(x)))
+                ybars.append(dense_seed(subseed + len(ybars), numpy.shape(x)))
+        return ybars
+
+    def enumerate_interrupts(self, c, step, ybars2, ev):
+        """Fault *enumeration* for one reverse sweep: for every distinct source line a sweep with
+        the seeds `enum.subseed` visits while a node kernel is in progress, a forked copy of this
+        process runs that sweep with an interrupt at the line's first visit and then the sweep
+        of this step; what the second sweep returns is collected.  The un-faulted history goes
+        on in this process."""
+        spec = step['enum']
+        if step['op'] == 'rev':
+            ybars1 = self.make_seeds(c, spec['subseed'])
+
+            def sweep1():
+                c.cg.pullback(ybars1)
+
+            def sweep2():
+                c.cg.pullback(ybars2)
+                return enc([f.xbar for f in c.cg.independentFunctionList])
+        else:
+            # forward evaluation at other inputs, interrupted; then this step's own evaluation
+            xs1 = [make_value(self.al, i['kind'], i['val']) for i in spec['inputs']]
+            real = ybars2          # for 'fwd' the third argument is the step's own thunk
+
+            def sweep1():
+                c.cg.pushforward(xs1)
+
+            def sweep2():
+                return real()[0]
+        locs = self.dry_run_locations(sweep1)
+        cap = spec.get('cap', 400)
+        if len(locs) > cap:
+            stride = len(locs) / float(cap)
+            locs = [locs[int(i * stride)] for i in range(cap)]
+        outcomes = {}
+        for k, (n_event, name) in enumerate(locs):
+            r, w = os.pipe()
+            pid = os.fork()
+            if pid == 0:
+                code = 0
+                try:
+                    os.close(r)
+                    signal.signal(signal.SIGALRM, signal.SIG_DFL)
+                    signal.alarm(60)
+                    self.line.start(n_event, 'exc' if k % 2 == 0 else 'base')
+                    try:
+                        with env.cpu_limit():
+                            sweep1()
+                    except BaseException:
+                        pass
+                    finally:
+                        self.line.stop()
+                    try:
+                        with env.cpu_limit():
+                            res = ['ok', sweep2()]
+                    except BaseException as e:
+                        res = ['exc', type(e).__name__]
+                    import pickle
+                    with os.fdopen(w, 'wb') as f:
+                        pickle.dump([self.line.fired, res], f)
+                except BaseException:
+                    code = 3
+                finally:
+                    os._exit(code)
+            os.close(w)
+            with os.fdopen(r, 'rb') as f:
+                data = f.read()
+            os.waitpid(pid, 0)
+            if not data:
+                continue
+            import pickle
+            fired, res = pickle.loads(data)
+            if not fired:
+                continue
+            key = codec.digest(res)
+            if key not in outcomes:
+                outcomes[key] = {'out': res, 'first_at': name, 'count': 0}
+            outcomes[key]['count'] += 1
+        ev['enum'] = {'lines': len(locs), 'outcomes': sorted(outcomes.values(), key=lambda o: o['first_at'])}
+
+    def dry_run_locations(self, thunk):
+        """Distinct (file, line) locations of the call's line events with the index of their
+        first visit, found in a forked copy of this process."""
+        r, w = os.pipe()
+        pid = os.fork()
+        if pid == 0:
+            code = 0
+            try:
+                os.close(r)
+                signal.signal(signal.SIGALRM, signal.SIG_DFL)
+                signal.alarm(40)
+                self.line.locs = []
+                self.line.start(None, 'exc')
+                try:
+                    with env.cpu_limit():
+                        thunk()
+                except BaseException:
+                    pass
+                self.line.stop()
+                first = {}
+                for i, loc in enumerate(self.line.locs):
+                    if loc not in first:
+                        first[loc] = i + 1
+                import pickle
+                out = sorted((n, '%s:%d' % (os.path.basename(f), l)) for (f, l), n in first.items())
+                with os.fdopen(w, 'wb') as f:
+                    pickle.dump(out, f)
+            except BaseException:
+                code = 1
+            finally:
+                os._exit(code)
+        os.close(w)
+        with os.fdopen(r, 'rb') as f:
+            data = f.read()
+        os.waitpid(pid, 0)
+        if not data:
+            return []
+        import pickle
+        return pickle.loads(data)
+
+    def call_rev(self, c, step):
+        ybars = self.make_seeds(c, step['subseed'], step.get('bad'))
         old = c.last_ybars
+        same_shape = old is not None and len(old) == len(ybars) and all(
+            type(o) is type(n) and numpy.shape(getattr(o, 'data', o)) == numpy.shape(getattr(n, 'data', n))
+            for o, n in zip(old, ybars))
+        if step.get('same_seed') and same_shape:
+            # the very same seed objects again, untouched by the caller
+            ybars = old
+            args = [self.caller_view(y) for y in ybars]
+
+            def thunk():
+                c.cg.pullback(ybars)
+                out = [f.xbar for f in c.cg.independentFunctionList]
+                return enc(out), out
+            return args, thunk, ybars
         if step.get('reuse_seed') and old is not None and len(old) == len(ybars) and all(
                 type(o) is type(n) and numpy.shape(getattr(o, 'data', o)) == numpy.shape(getattr(n, 'data', n))
                 for o, n in zip(old, ybars)):
@@ -505,6 +655,8 @@ class Sim(object):
                     o[...] = n
             ybars = old
         c.last_ybars = ybars
+        for y in ybars:
+            self.caller_wrote(y)
         args = [enc(y) for y in ybars]
 
         def thunk():
@@ -527,6 +679,10 @@ class Sim(object):
         else:
             args, thunk, owned = self.call_drv(c, step)
         ev['args'] = args
+        if op == 'rev' and step.get('enum'):
+            self.enumerate_interrupts(c, step, owned, ev)
+        elif op == 'fwd' and step.get('enum'):
+            self.enumerate_interrupts(c, step, thunk, ev)
         before_owned = [enc(o) for o in owned]
         fault = step.get('fault')
         fired = False
@@ -539,7 +695,9 @@ class Sim(object):
                 total, line_n = self.dry_run_lines(thunk, fault)
                 ev['line_total'] = total
                 ev['line_n'] = line_n
-        err = numpy.errstate(all='raise') if step.get('errstate') else numpy.errstate()
+        # (no context manager at all when the step does not ask for one: numpy.errstate() would
+        # restore the error state at exit and so hide a kernel that leaks a changed state)
+        err = numpy.errstate(all='raise') if step.get('errstate') else contextlib.nullcontext()
         try:
             with err:
                 if line_n is not None:
